@@ -21,6 +21,7 @@ import WpModel.Lemmas.OofEmbed
 import WpModel.Lemmas.OofPages
 import WpModel.Lemmas.OofTotal
 import WpModel.Lemmas.OofFrame
+import WpModel.Lemmas.OofWorld
 import WpModel.Props.C01
 import WpModel.Witness.C01Oof
 
@@ -527,5 +528,84 @@ example :
 example : ¬ WfSkip exDoc.root (some (.node 0 (some (.node 1 (some (.line 1)))))) ∧
     WfSkip exDoc.root (some (.node 0 (some (.node 2 (some (.node 0 (some (.line 1)))))))) := by
   simp [exDoc, Witness.mkDoc, WfSkip, WfSkipKids, OBox.inFlow, OBox.st, Witness.flow, Witness.floated]
+
+/-! ### 6. the world invariant: the hypothesis of §5 holds for every good document
+
+`Lemmas/OofWorld.lean` proves, by the mutual induction over the whole layout (`layoutBox_wok` / `layoutKids_sok`,
+then `layoutAbs_wok`, `contStep_wok`, `absStep_wok`, `remakePage_registered_ok`, `makeAllPages_registered_ok`), that
+every item a layout leaves in `absolute_boxes` or registers in `context.broken_out_of_flow` is a box of the
+document with — for the registered ones — a well-formed resume position (`EOk`). So the explicit hypothesis of
+`next_page_continues` can go: -/
+
+/-- A fine registered item satisfies the hypothesis of `continuation_segment` / `page_continues`. -/
+theorem eok_good_wf (e : Broken) (h : EOk e) : Good e.box ∧ WfSkip e.box (some e.resume) :=
+  ⟨good_of_deep e.box h.1, h.2⟩
+
+/-- **Everything a page registers is continued on the next page — for every good document, no hypothesis on the
+registered items** (`next_page_continues` with its hypothesis discharged by the world invariant
+`makeAllPages_registered_ok`): for consecutive pages `p, q` of a document whose boxes all have `height: auto`
+and `orphans, widows ≥ 1` (`GoodDeep`), the root of `q` starts with one real fragment per item of
+`p.broken`, in order, each showing the lines of its box from the registered position. -/
+theorem document_continues (d : Doc) (hd : GoodDeep d.root) (id : Nat) (st : OStyle) (kids : List OBox)
+    (hroot : d.root = .block id st kids) (fuel index : Nat) (resume : Option Resume) (np : NextPage) (right : Bool)
+    (brokenIn : List Broken) (rootTop : Rat) (hin : ∀ e ∈ brokenIn, EOk e) (p q : Page) (rest : List Page)
+    (h : makeAllPages d (fuel + 1) index resume np right brokenIn rootTop = some (p :: q :: rest)) :
+    ∃ gs ks ser idx g, ContAll p.broken gs ∧ q.root = .block ser id idx st g (gs ++ ks) := by
+  have hok := makeAllPages_registered_ok d hd (fuel + 1) index resume np right brokenIn rootTop _ hin h p
+    List.mem_cons_self
+  exact next_page_continues d id st kids hroot fuel index resume np right brokenIn rootTop p q rest h
+    (fun e he => eok_good_wf e (hok e he))
+
+/-- The same for any two consecutive pages of `paginate` (the document starts with nothing registered). -/
+theorem paginate_continues (d : Doc) (hd : GoodDeep d.root) (id : Nat) (st : OStyle) (kids : List OBox)
+    (hroot : d.root = .block id st kids) (fuel : Nat) (pages : List Page) (h : paginate d fuel = some pages) :
+    ∀ (pre : List Page) (p q : Page) (rest : List Page), pages = pre ++ p :: q :: rest →
+      ∃ gs ks ser idx g, ContAll p.broken gs ∧ q.root = .block ser id idx st g (gs ++ ks) := by
+  unfold paginate at h
+  have key : ∀ (fuel index : Nat) (resume : Option Resume) (np : NextPage) (right : Bool) (brokenIn : List Broken)
+      (rootTop : Rat) (pages : List Page), (∀ e ∈ brokenIn, EOk e) →
+      makeAllPages d fuel index resume np right brokenIn rootTop = some pages →
+      ∀ (pre : List Page) (p q : Page) (rest : List Page), pages = pre ++ p :: q :: rest →
+        ∃ gs ks ser idx g, ContAll p.broken gs ∧ q.root = .block ser id idx st g (gs ++ ks) := by
+    intro fuel
+    induction fuel with
+    | zero => intro index resume np right bi rt pages _ h; simp [makeAllPages] at h
+    | succ fuel ih =>
+      intro index resume np right bi rt pages hin h pre p q rest hpages
+      cases pre with
+      | nil =>
+        simp only [List.nil_append] at hpages
+        subst hpages
+        exact document_continues d hd id st kids hroot fuel index resume np right bi rt hin p q rest h
+      | cons p0 pre' =>
+        simp only [List.cons_append] at hpages
+        subst hpages
+        have hp0 := makeAllPages_registered_ok d hd (fuel + 1) index resume np right bi rt _ hin h p0
+          List.mem_cons_self
+        -- the tail of the pages is itself a `makeAllPages` run started from what `p0` registered
+        unfold makeAllPages at h
+        split at h
+        · cases h
+        · rename_i p' hp'
+          split at h
+          · simp only [Option.some.injEq, List.cons.injEq] at h
+            have := h.2
+            cases pre' <;> simp at this
+          · split at h
+            · rename_i ps hps
+              simp only [Option.some.injEq, List.cons.injEq] at h
+              obtain ⟨rfl, rfl⟩ := h
+              exact ih _ _ _ _ _ _ _ hp0 hps pre' p q rest rfl
+            · cases h
+  exact key fuel 0 none _ _ [] 0 pages (by simp) h
+
+
+/-! Non-vacuity: `exDoc` is `GoodDeep` with a block root, so `paginate_continues` applies to its three pages (the
+float 2 registered by page 1 and the absolutely positioned box 4 registered by page 2 are continued). -/
+example (pages : List Page) (h : paginate exDoc 40 = some pages) :=
+  paginate_continues exDoc
+    (by simp [exDoc, Witness.mkDoc, GoodDeep, GoodDeepList, Witness.flow, Witness.floated, Witness.absolute,
+      Witness.st0])
+    100 _ _ rfl 40 pages h
 
 end Wp.PMO.C01Oof
